@@ -291,6 +291,10 @@ func runPipe(t *testing.T, tape *simrt.Tape, g simrt.Gen, o *common.Outcome) {
 			if s.m.ed.kind != edReroute {
 				o.Probe(fmt.Sprintf("edit-%s-%s#%d", protoName(c.tls), []string{"I>R", "R>I"}[s.m.ed.dir], s.m.ed.idx))
 			}
+			if s.m.ed.kind == edFlip {
+				// which quarter of the frame the flipped byte lies in (header flips of random-length frames count as quarter 0)
+				o.Probe(fmt.Sprintf("flip-%s-%s#%d-quarter%d", protoName(c.tls), []string{"I>R", "R>I"}[s.m.ed.dir], s.m.ed.idx, s.m.quart))
+			}
 			o.Nontrivial = true
 		}
 		// reach probes
